@@ -252,6 +252,7 @@ def run(prop: str, subset=None) -> Dict:
         vs.append({"id": f"{prop}-auto-invert-if", "kind": "preserve", "astmode": "invert-if", "file": "(all)", "rule": None})
         vs.append({"id": f"{prop}-auto-swap-mul", "kind": "preserve", "astmode": "swap-mul", "file": "(all)", "rule": None})
         vs.append({"id": f"{prop}-auto-inline-temp", "kind": "preserve", "astmode": "inline-temp", "file": "(all)", "rule": None})
+        vs.append({"id": f"{prop}-auto-kwargs", "kind": "preserve", "astmode": "kwargs", "file": "(all)", "rule": None})
     if not vs:
         return {"variants": 0, "results": [], "ok": True, "problems": []}
     from multiprocessing import Pool
